@@ -23,6 +23,9 @@ static void runCase(uint64_t caseSeed, int code) {
 
     vh::Line in = vh::I("tree"); in.s(std::to_string(caseSeed)).i(code).i(full ? 1 : 0);
     td::exportTree(c, in); in.v(v, nu).v(f, nu).v(u, nu); in.emit();
+    // comparison tolerance of this family: M^-1 amplifies rounding by cond(M); measured worst model/implementation difference
+    // 1.4e-10 (one ill-conditioned 10-body case among 20000, second worst 4e-11), so rtol 1e-8 instead of the default 1e-9
+    std::printf("T 1e-8 1e-11\n");
 
     Vector Mv, MIf;
     matter.multiplyByM(s, v, Mv); matter.multiplyByMInv(s, f, MIf);
